@@ -796,3 +796,14 @@ func (w *simWorld) stateKey(extra ...string) string {
 	}
 	return sb.String()
 }
+
+// simHdr builds a raw BGP message with an arbitrary marker byte, length field and type.
+func simHdr(marker byte, length uint16, typ uint8, body []byte) []byte {
+	b := make([]byte, 19)
+	for i := 0; i < 16; i++ {
+		b[i] = marker
+	}
+	binary.BigEndian.PutUint16(b[16:18], length)
+	b[18] = typ
+	return append(b, body...)
+}
